@@ -83,7 +83,14 @@ func SolveAll(v *FnVC, timeoutMs int, scratch string, sem chan struct{}) (vacuou
 	ctxText := v.Context()
 	var b strings.Builder
 	b.WriteString(ctxText)
-	b.WriteString("(echo \"CTX\")\n(check-sat)\n")
+	// vacuity check of the context in its own process (quantified contexts often answer unknown: accepted)
+	ctxDone := make(chan string, 1)
+	go func() {
+		sem <- struct{}{}
+		out, _ := runSolver(solvers[0], ctxText+"(check-sat)\n", 3000)
+		<-sem
+		ctxDone <- strings.TrimSpace(strings.SplitN(strings.TrimSpace(out), "\n", 2)[0])
+	}()
 	for i, o := range v.obligs {
 		b.WriteString(fmt.Sprintf("(push 1)\n%s\n(echo \"OB %d\")\n(check-sat)\n(pop 1)\n", obligQuery(o), i))
 	}
@@ -92,7 +99,11 @@ func SolveAll(v *FnVC, timeoutMs int, scratch string, sem chan struct{}) (vacuou
 		os.WriteFile(filepath.Join(scratch, sanitize(v.fnName())+".smt2"), []byte(script), 0o644)
 	}
 	sem <- struct{}{}
-	out, secs := runSolver(solvers[0], script, timeoutMs)
+	pass1 := 3000
+	if timeoutMs < pass1 {
+		pass1 = timeoutMs
+	}
+	out, secs := runSolver(solvers[0], script, pass1)
 	<-sem
 	lines := strings.Split(out, "\n")
 	cur := -2
@@ -121,6 +132,7 @@ func SolveAll(v *FnVC, timeoutMs int, scratch string, sem chan struct{}) (vacuou
 			}
 		}
 	}
+	ctxStatus = <-ctxDone
 	if ctxStatus == "unsat" {
 		vacuous = true
 	}
